@@ -11,7 +11,7 @@ import genmodels as G
 from c01 import CONFIGS, NS_MAPS
 
 IMPORTS = "From XV Require Import Base.Str Model.Bind Model.Parser Model.ParserCorr Model.Reader Model.ReaderCorr."
-C08_EXTRAS = ["union_qname", "wrapper_qname", "skip_qname", "any_attrs"]
+C08_EXTRAS = ["union_qname", "wrapper_qname", "skip_qname", "any_attrs", "scoped_qname"]
 AGREE = ["agree_native_events", "agree_native_outcome", "agree_native_recorder", "agree_lxml_events", "agree_lxml_outcome",
          "agree_lxml_recorder", "agree_lxml_tree_events", "agree_et_events", "agree_et_outcome"]
 
@@ -20,6 +20,7 @@ def reader_jobs(ck):
     r = ck.rng
     jobs = [{"id": i, "seed": r.randrange(1 << 30), "model": {"c08": n}} for i, n in enumerate(C08_EXTRAS)]
     jobs.append({"id": len(jobs), "seed": 0, "model": {"chunk": True}, "pads": [100, 16350, 16360, 16370, 16376, 32750, 70000]})
+    jobs.append({"id": len(jobs), "seed": 0, "model": {"enc": True}})
     for name in ("wildtail", "anytype", "union", "wrappers", "poly"):
         jobs.append({"id": len(jobs), "seed": r.randrange(1 << 30), "model": {"extra": name}, "n_docs": 3})
     for _ in range(ck.n(36, 400)):
@@ -65,7 +66,23 @@ def reader_correspondence(ck, fut):
                 ck.failure("handlers-differ-tail-chunk-boundary",
                            f"<M>{'x' * 3}...({ch['pad']} chars)<b/>TAIL...</M>: native {ch['native']} vs lxml {ch['lxml']}",
                            {"pad": ch["pad"], "native": ch["native"], "lxml": ch["lxml"]})
-        if "chunk" in j:
+        for x in j.get("enc", []):
+            if x.get("why"):
+                ck.failure(f"encoding-{x['variant']}-{x['handler']}-handler",
+                           f"document declared/encoded as {x['variant']} through the {x['handler']} handler from a {x['source']} source does not give "
+                           f"the object of the str source: {x['why']} ({x['doc'][:120]!r})", {"job": {"seed": j["seed"], "model": j["model"]}, "case": x})
+        for t in j.get("tree", []):
+            if t.get("render_exc"):
+                continue          # rendering failures are the writers oracle's subject
+            cls = "tree-serializer-namespaces-differ" if t.get("nsmaps_differ") else "tree-serializer-parse-differs"
+            if t.get("parse_differs") and set(t["parse_differs"]) == {"native_writer"} and not t.get("nsmaps_differ"):
+                cls = "writers-parse-back-differs"
+            ck.failure(cls, f"TreeSerializer vs writers (ns_map={t.get('ns_map')}): {t.get('nsmaps_differ') or t.get('parse_differs')}",
+                       {"job": {"seed": j["seed"], "model": j["model"]}, "source": j.get("source"), "case": t})
+        stats["encoding_cases"] = stats.get("encoding_cases", 0) + (j.get("enc_n", 0) or len(j.get("enc", [])))
+        stats["encoding_docs_nonascii"] = stats.get("encoding_docs_nonascii", 0) + bool(j.get("enc_nonascii"))
+        stats["tree_cases"] = stats.get("tree_cases", 0) + j.get("tree_n", 0)
+        if "chunk" in j or "enc" in j["model"]:
             continue
         if j.get("skipped") or not j.get("universe") or not j.get("conv"):
             stats["skipped_jobs"] += 1
@@ -196,7 +213,7 @@ def run(ck: Check):
     except common.BuildError as e:
         ck.broken_obligation("corr-reader:" + e.target, e.log)
         rstats, rsamples = {"cases": 0}, []
-    ck.cov["evaluations"] = n + rstats["cases"]
+    ck.cov["evaluations"] = n + rstats["cases"] + rstats.get("encoding_cases", 0) + rstats.get("tree_cases", 0)
     ck.cov["distinct_nontrivial"] = n + rstats["cases"]
     ck.cov["rule"] = ("reader correspondence: one case = (model, printed document with its declarations, parser options) -> events, outcome and "
                       "recorder map of both REAL handlers (+ lxml tree and ElementTree sources) compared in Coq with Model/Reader.v, oracle and "
